@@ -19,6 +19,7 @@ from fractions import Fraction
 warnings.simplefilter('ignore')
 
 from harness import util
+from harness.gen import c20_extra as GX
 from harness.gen import cli as GC
 from harness.gen import datasets as G
 
@@ -30,6 +31,7 @@ REQUIRED = [
     'Ems.C20.bounds_denote_box', 'Ems.C20.geometry_argument_order', 'Ems.C20.guess_format_table',
     'Ems.C20.formats_have_writers', 'Ems.C20.unknown_format_fails', 'Ems.C20.exit_status',
     'Ems.C20.exit_status_nonzero', 'Ems.C20.pattern_text', 'Ems.C20.pattern_language',
+    'Ems.C20.guess_table_generated', 'Ems.C20.format_choices_generated', 'Ems.C20.missing_points_generated',
 ]
 RULE = ('bounds texts: corpus of minimal strings, texts drawn from the grammar of bounds_re (signs, the four '
         'numeral forms, underscores, non-ASCII decimal digits, every kind of blank around the commas), 24 kinds of '
@@ -38,11 +40,18 @@ RULE = ('bounds texts: corpus of minimal strings, texts drawn from the grammar o
         'exhaustive sweep of short numeral candidates in each of the four positions, through the real '
         'bounds_argument, geometry_argument and bounds_re.fullmatch; the digit / blank classes of the model '
         'against re over all of Unicode; GeoJSON texts and file-name scenarios (valid, invalid, missing, '
-        'unsupported suffix, directory, names that look like bounds or JSON) in a scratch directory; the suffix / '
+        'unsupported suffix, directory, names that look like bounds or JSON) in a scratch directory; GeoJSON documents '
+        'whose coordinates take many digits to write down (long decimals, fine dyadic fractions, a hair off a whole '
+        'number, large and tiny magnitudes, a third ordinate; holes, multi-part, collections, Features), each once as '
+        'the argument text and once as a file of some layout, compared ordinate for ordinate with shape(json.load); the suffix / '
         'guess / format / exit-status / command-name tables against the live objects; emsarray.cli.main(argv) '
         'in-process for clip, extract-points (each policy, hits and misses) and export-geometry (each format, '
         'explicit and guessed) on datasets of every convention written to disk, outputs compared with the library '
-        'call, plus every user-caused failure scenario (exit status, message, no output left). Non-trivial: a '
+        'call, plus every user-caused failure scenario (exit status, message, no output left); clip boxes whose sides '
+        'lie 2^-21 … 2^-30 away from a cell edge (as exact decimal bounds, GeoJSON text, GeoJSON file); point tables '
+        'with free-text columns before / between / after the coordinate columns holding the characters that are '
+        'special to some CSV dialect (# ; , quotes, tabs, outer blanks, line breaks, non-ASCII), written in the '
+        'dialects pandas writes. Non-trivial: a '
         'text that is not the bare `1,2,3,4` shape (has a sign / fraction / underscore / blank / non-ASCII digit '
         'or is a near miss), a geometry-argument scenario that reaches the JSON or file branch, a command run; '
         'distinct = distinct (operation, text / scenario).')
@@ -84,7 +93,7 @@ def cli_utils():
 def canon_ring(pts) -> str:
     """`BOX` + ring of a proper box; `BOXD` + sorted distinct corners of one that collapses to a
     segment or a point (GEOS drops repeated vertices there)"""
-    pts = [(Fraction(float(x)), Fraction(float(y))) for x, y in pts]
+    pts = [(Fraction(float(p[0])), Fraction(float(p[1]))) for p in pts]
     if len({p[0] for p in pts}) < 2 or len({p[1] for p in pts}) < 2:
         return 'BOXD ' + ';'.join(f'{util.rat_str(x)},{util.rat_str(y)}' for x, y in sorted(set(pts)))
     return 'BOX ' + ';'.join(f'{util.rat_str(x)},{util.rat_str(y)}' for x, y in pts)
@@ -111,7 +120,7 @@ def usage_kind(msg: str) -> str:
 
 
 def is_box_like(g) -> bool:
-    if g.geom_type != 'Polygon' or g.interiors:
+    if g.geom_type != 'Polygon' or g.interiors or g.has_z or g.is_empty:
         return False
     coords = list(g.exterior.coords)
     return len(coords) == 5 or len({c[0] for c in coords}) < 2 or len({c[1] for c in coords}) < 2
@@ -325,9 +334,11 @@ def eval_geom(ctx, case: dict, work: pathlib.Path):
                 out = 'JSON'
             elif fgeom is not None and g.wkb == fgeom.wkb:
                 out = 'FILE'
-            elif is_box_like(g):
+            elif is_box_like(g) and not (s.count(',') < 3 or jout == 'geometry'):
                 out = canon_box(g)
             else:
+                # (a text with fewer than four fields, or a GeoJSON document, cannot have been read as bounds:
+                # a rectangle that comes out of it is a wrong geometry, not a bounds reading)
                 out = 'GEOM:' + g.wkt
         # oracle: bounds reading, and "a GeoJSON string or file denotes exactly that geometry"
         bounds_oracle(ctx, s, out, 'geometry_argument', desc)
@@ -605,12 +616,14 @@ def eval_cmd(ctx, case: dict, work: pathlib.Path):
             csv = d / 'points.csv'
             cols = case.get('columns', ['lon', 'lat'])
             df = pd.DataFrame(case['table'])
+            if case.get('table_order'):
+                df = df[list(case['table_order'])]      # replay files are written with sorted keys
             if scenario == 'missing-csv':
                 csv = d / 'absent.csv'
             elif scenario == 'empty-csv':
                 csv.write_text('')
             else:
-                df.to_csv(csv, index=False)
+                df.to_csv(csv, index=False, **GX.csv_kwargs(case.get('csv_style', 'default')))
             argv += [str(inp), str(csv), str(outp)]
             policy = case.get('policy')
             if policy:
@@ -911,6 +924,21 @@ def geom_cases(ctx) -> list:
         cases.append({'k': 'geom', 's': t, 'files': {}, 'name': ''})
         ctx.nontrivial(('geom', t))
         ctx.count('geom:json-geometry')
+    # geometries whose coordinates take many digits to write down (long decimals, fine dyadic fractions, a hair
+    # off a whole number, large / tiny magnitudes, a third ordinate), holes, multi-part, collections, Features:
+    # the same document once as the argument text and once as a file of some layout under some name
+    for _ in range(ctx.budget(50, 500)):
+        obj = GX.fine_geojson(rng)
+        fine = 'fine' if GX.has_fine_digits(obj) else 'short'
+        t = GX.dump_json(rng, obj)
+        if lean_safe(t):
+            cases.append({'k': 'geom', 's': t, 'files': {}, 'name': ''})
+            ctx.nontrivial(('geom', t))
+            ctx.count(f'geom:json-geometry:{fine}')
+        arg, name = GX.geojson_file_argument(rng)
+        cases.append({'k': 'geom', 's': arg, 'files': {name: GX.dump_json(rng, obj)}, 'name': os.path.basename(name)})
+        ctx.nontrivial(('geom-file', arg, t))
+        ctx.count(f'geom:file-geometry:{fine}')
     # bounds texts and their neighbours go through geometry_argument too
     for s in CORPUS_TEXTS:
         if lean_safe(s) and '\x00' not in s and '/' not in s:
@@ -1091,6 +1119,45 @@ def command_cases(ctx) -> list:
     return cases
 
 
+def extra_command_cases(ctx) -> list:
+    """clip boxes whose sides lie a small power of two away from a cell edge (given as exact decimal bounds, as a
+    GeoJSON string, as a GeoJSON file); point tables with free-text columns around the coordinate columns, in the
+    CSV dialects pandas writes"""
+    rng = ctx.rng
+    cases = []
+    for rnd in range(ctx.budget(2, 10)):
+        for conv in G.CONVS:
+            rec = dataset_recipe(rng, conv, ctx.tier, for_clip=True)
+            b = G.build(rec['ds'])
+            base = clip_geometry_for(b, rng)
+            for how in rng.sample(['bounds', 'json', 'file', 'file'], 2):
+                vals = None
+                for _ in range(10):
+                    vals = GX.near_edge_box(rng, b.polys, base)
+                    if vals is not None:
+                        break
+                if vals is None:
+                    continue
+                parts = [GX.exact_decimal(v) for v in vals]
+                text = parts[0]
+                for p in parts[1:]:
+                    text += GC.blanks(rng, 0.3) + ',' + GC.blanks(rng, 0.3) + p
+                cases.append({'k': 'cmd', 'cmd': 'clip', 'recipe': rec, 'bounds': vals, 'bounds_text': text,
+                              'geom_how': how, 'geom_file': rng.choice(['clip.geojson', 'clip.json', 'a.b.json']),
+                              'work_dir': rng.choice([False, False, True])})
+                ctx.count(f'cmd:clip:near-edge:{how}')
+            rec = dataset_recipe(rng, conv, ctx.tier, for_clip=False)
+            b = G.build(rec['ds'])
+            cols = rng.choice([['lon', 'lat'], ['lon', 'lat'], ['x', 'y']])
+            for policy, n_miss in [(rng.choice([None, 'error']), 0), (rng.choice(['drop', 'fill']), rng.choice([0, 1, 2]))]:
+                table, order = GX.text_layout(rng, points_table(rng, b, rng.randint(2, 5), n_miss, cols), cols)
+                cases.append({'k': 'cmd', 'cmd': 'extract-points', 'recipe': rec, 'table': table, 'table_order': order,
+                              'columns': cols, 'policy': policy, 'dim': rng.choice([None, None, 'station_index']),
+                              'csv_style': rng.choice(GX.CSV_STYLES)})
+                ctx.count('cmd:extract-points:text-columns')
+    return cases
+
+
 # ---------------------------------------------------------------------------
 
 def run(ctx) -> None:
@@ -1099,11 +1166,16 @@ def run(ctx) -> None:
     work = pathlib.Path(tempfile.mkdtemp(prefix='c20-'))
     items = []
     try:
-        cases = table_cases(ctx) + text_cases(ctx) + geom_cases(ctx) + command_cases(ctx)
+        cases = table_cases(ctx) + text_cases(ctx) + geom_cases(ctx) + command_cases(ctx) + extra_command_cases(ctx)
         real_ctx, ctx = ctx, Flagging(ctx)
         for case in cases:
             before = ctx.flags
-            line, impl = evaluate(ctx, case, work)
+            got = []
+            # whatever the implementation returns or raises, handling it must not end the run without a verdict
+            real_ctx.guarded(lambda: got.append(evaluate(ctx, case, work)), {'case': case})
+            if not got:
+                continue
+            line, impl = got[0]
             if ctx.flags > before:
                 # the direct oracle has reported this input; the model line would only say it again
                 ctx.count('flagged-by-oracle')
